@@ -704,6 +704,12 @@ impl G<'_> {
 }
 
 pub fn gen_program(rng: &mut Rng) -> Vec<T> {
+    gen_program_with_cuts(rng).0
+}
+
+/// The program and the token positions between its top-level statements (empty if the program was damaged).
+pub fn gen_program_with_cuts(rng: &mut Rng) -> (Vec<T>, Vec<usize>) {
+    let mut cuts: Vec<usize> = vec![];
     let mut out = vec![];
     let size = *rng.pick(&[4i32, 8, 12, 20, 30]);
     let profile = *rng.pick(&[0usize, 0, 1, 1, 2, 3]);
@@ -756,10 +762,12 @@ pub fn gen_program(rng: &mut Rng) -> Vec<T> {
     }
     while g.budget > 0 {
         let maxuser = 1 + g.rng.below(5) as usize;
+        cuts.push(out.len());
         g.stmt(&mut out, 0, maxuser, false);
     }
     // chaos: damage a few programs at token level (error paths; the model must stop where the VM does)
     if g.rng.chance(1, 5) && !out.is_empty() {
+        cuts.clear();
         for _ in 0..1 + g.rng.below(2) {
             let i = g.rng.below(out.len() as u64) as usize;
             match g.rng.below(4) {
@@ -781,7 +789,7 @@ pub fn gen_program(rng: &mut Rng) -> Vec<T> {
             }
         }
     }
-    out
+    (out, cuts)
 }
 
 // ------------------------------------------------------------------------------------------------
@@ -837,6 +845,90 @@ fn run_event_named(prog: &[Value], src: &str, extra: &[(String, i64)]) -> Value 
     ev
 }
 
+/// The program cut into two lines after `cut` tokens: the first line is run to the end of its input, the VM is
+/// serialised and deserialised (`fmt`: 0 none, 1 JSON, 2 MessagePack, 3 bincode), the second line is run on the
+/// result.  None if a part cannot be written as a line of its own.
+pub fn run_event_cut(toks: &[T], cut: usize, fmt: u8) -> Option<Value> {
+    // `#1` is one generator token but two real ones: cut between generator tokens only
+    let (a, b) = toks.split_at(cut);
+    let (src1, src2) = (render(a)?, render(b)?);
+    if matches!(b.first(), Some(T::Sp)) || a.is_empty() || b.is_empty() {
+        return None;
+    }
+    let ntok1 = tjson_seq(a).len();
+    let mut vm = vmh::new_vm(&[], &[]);
+    let _ = vmh::run_src::<vmh::HStrict>(&mut vm, "prelude.tex", PRELUDE, 10_000);
+    let r1 = vmh::run_src::<vmh::HStrict>(&mut vm, "one.tex", &src1, 4_000);
+    let err1 = vmh::first_err_at();
+    let mut out = out_codes(&r1.toks);
+    let mut ev = json!({"prog": tjson_seq(toks), "src": format!("{src1}\n{src2}"), "cut": ntok1, "fmt": fmt,
+                        "errat": err1, "fatal": 0, "budget": 0, "finals": []});
+    let mut done = |ev: &mut Value, out: &[i64]| {
+        ev["out"] = json!(out);
+    };
+    match &r1.outcome {
+        vmh::Outcome::Ok if err1 < 0 => {}
+        vmh::Outcome::Ok => {
+            // a recoverable error in the first line: judged like an uncut run that stops there
+            done(&mut ev, &out);
+            return Some(ev);
+        }
+        vmh::Outcome::Err { .. } => {
+            ev["fatal"] = json!(1);
+            done(&mut ev, &out);
+            return Some(ev);
+        }
+        vmh::Outcome::Budget => {
+            ev["budget"] = json!(1);
+            done(&mut ev, &out);
+            return Some(ev);
+        }
+        vmh::Outcome::Panic { site, msg } => {
+            ev["panic"] = json!(format!("{site}: {msg}"));
+            done(&mut ev, &out);
+            return Some(ev);
+        }
+    }
+    let mut vm2 = match fmt {
+        0 => vm,
+        f => {
+            let format = [vmh::Format::Json, vmh::Format::MessagePack, vmh::Format::Bincode][(f - 1) as usize];
+            match crate::util::catch(|| vmh::checkpoint(&vm, format, &[], &[])) {
+                Ok(Ok(v)) => v,
+                Ok(Err(e)) => {
+                    ev["panic"] = json!(format!("checkpoint failed: {e}"));
+                    done(&mut ev, &out);
+                    return Some(ev);
+                }
+                Err((site, msg)) => {
+                    ev["panic"] = json!(format!("checkpoint panicked: {site}: {msg}"));
+                    done(&mut ev, &out);
+                    return Some(ev);
+                }
+            }
+        }
+    };
+    ev["resumed"] = json!(1);
+    let r2 = vmh::run_src::<vmh::HStrict>(&mut vm2, "two.tex", &src2, 4_000);
+    let err2 = vmh::first_err_at();
+    let n1 = out.len() as i64;
+    out.extend(out_codes(&r2.toks));
+    ev["errat"] = json!(if err2 >= 0 { n1 + err2 } else { -1 });
+    match &r2.outcome {
+        vmh::Outcome::Ok => {
+            if err2 < 0 {
+                let vals: Vec<i64> = vm2.state.registers_i32.values()[..4].iter().map(|v| *v as i64).collect();
+                ev["finals"] = json!(vals);
+            }
+        }
+        vmh::Outcome::Err { .. } => ev["fatal"] = json!(1),
+        vmh::Outcome::Budget => ev["budget"] = json!(1),
+        vmh::Outcome::Panic { site, msg } => ev["panic"] = json!(format!("{site}: {msg}")),
+    }
+    done(&mut ev, &out);
+    Some(ev)
+}
+
 fn events(args: &Args) -> i32 {
     // the VM recurses (number scanner inside number scanner ...): give it room
     let args2 = Args { cmd: args.cmd.clone(), kv: args.kv.clone() };
@@ -858,8 +950,9 @@ fn events_impl(args: &Args) -> i32 {
     let mut unrenderable = 0u64;
     let from: u64 = args.num("from", 0); // debugging: generate, but do not run, the first `from` programs
     let show = args.str("show").is_some();
+    let cut_mode = args.str("cut").is_some();
     while made < n {
-        let toks = gen_program(&mut rng);
+        let (toks, cuts) = gen_program_with_cuts(&mut rng);
         let Some(src) = render(&toks) else {
             unrenderable += 1;
             continue;
@@ -868,7 +961,25 @@ fn events_impl(args: &Args) -> i32 {
             if show {
                 eprintln!("program {made}: {src}");
             }
-            out.line(&run_event(&toks, &src));
+            if cut_mode {
+                // two lines with a checkpoint between them; the format rotates (0 = no checkpoint at all)
+                // mostly between two top-level statements, sometimes anywhere
+                let inner: Vec<usize> = cuts.iter().copied().filter(|c| *c > 0 && *c < toks.len()).collect();
+                let k = if !inner.is_empty() && !rng.chance(1, 6) {
+                    *rng.pick(&inner)
+                } else {
+                    1 + rng.below(toks.len().max(2) as u64 - 1) as usize
+                };
+                match run_event_cut(&toks, k.min(toks.len()), (made % 4) as u8) {
+                    Some(ev) => out.line(&ev),
+                    None => {
+                        unrenderable += 1;
+                        continue;
+                    }
+                }
+            } else {
+                out.line(&run_event(&toks, &src));
+            }
         }
         made += 1;
     }
